@@ -1364,12 +1364,25 @@ def _unnest(stmts):
     return out, changed
 
 
+class _ConstantsRight(ast.NodeTransformer):
+    """`0 == x`, `8 < n`: the literal goes to the right (`x == 0`, `n > 8`) - one spelling for the rules to know."""
+    _SW = {ast.Lt: ast.Gt, ast.Gt: ast.Lt, ast.LtE: ast.GtE, ast.GtE: ast.LtE, ast.Eq: ast.Eq, ast.NotEq: ast.NotEq}
+
+    def visit_Compare(self, node):
+        self.generic_visit(node)
+        lit = lambda e: isinstance(e, ast.Constant) or (isinstance(e, ast.UnaryOp) and isinstance(e.op, (ast.USub, ast.UAdd)) and isinstance(e.operand, ast.Constant))
+        if len(node.ops) == 1 and type(node.ops[0]) in self._SW and lit(node.left) and not lit(node.comparators[0]):
+            node.left, node.comparators, node.ops = node.comparators[0], [node.left], [self._SW[type(node.ops[0])]()]
+        return node
+
+
 def flatten_guards(mods):
     """Every function of the package in guard-clause form: `if c: <leaves> else: <rest>` (also as an if/elif/else staircase) reads
     `if c: <leaves>` followed by <rest>.  Same paths, same order of evaluation; done in place, line numbers stay."""
     for mod, tree in mods.items():
         if mod == 'luts':
             continue
+        _ConstantsRight().visit(tree)
         for fn in [x for x in ast.walk(tree) if isinstance(x, ast.FunctionDef)]:
             for _ in range(12):
                 body, ch = _unnest(fn.body)
